@@ -280,10 +280,14 @@ def validate_translation(ctx, n):
 
 # ------------------------------------------------------------------ run
 # ------------------------------------------------------------------ complete gen_coords runs: templates polyply generates itself
-def pipeline_top(rng):
-    """a copolymer of residue kinds with / without a virtual site; returns topology text and the residue names"""
-    kinds = {'RA': (['A', 'B', 'C'], True), 'RB': (['A', 'B', 'C', 'D'], False), 'RC': (['A', 'B'], True)}
-    seq = [rng.choice(sorted(kinds)) for _ in range(rng.randint(3, 6))]
+def pipeline_top(rng, strained=False):
+    """a copolymer of residue kinds with / without a virtual site; returns topology text and the residue names.  strained: a
+    residue kind whose bond lengths contradict one another (its template optimisation never converges and the last
+    geometry is used) in several molecules -- all its copies are congruent all the same"""
+    kinds = {'RA': (['A', 'B', 'C'], True), 'RB': (['A', 'B', 'C', 'D'], False), 'RC': (['A', 'B'], True), 'RD': (['A', 'B', 'C', 'D'], False)}
+    seq = [rng.choice(['RA', 'RB', 'RC']) for _ in range(rng.randint(3, 6))]
+    if strained:
+        seq = ['RD', rng.choice(['RA', 'RB']), 'RD']
     atoms, bonds, angles, vsites = [], [], [], []
     idx, prev = 0, None
     for r, rn in enumerate(seq):
@@ -295,6 +299,8 @@ def pipeline_top(rng):
             atoms.append((idx, 'P1', r + 1, rn, nm))
         for a, b in zip(ids, ids[1:]):
             bonds.append((a, b, rng.choice([0.28, 0.30, 0.33])))
+        if rn == 'RD':
+            bonds.append((ids[0], ids[2], 0.95))        # A-C far longer than A-B + B-C
         for a, b, c in zip(ids, ids[1:], ids[2:]):
             angles.append((a, b, c, rng.choice([90, 100, 120])))
         if vs:
@@ -316,7 +322,7 @@ def pipeline_top(rng):
     if vsites:
         lines.append('[ virtual_sitesn ]')
         lines += [f'{v} 1 {i} {j}' for v, i, j in vsites]
-    lines += ['[ system ]', 'x', '[ molecules ]', f'pol {rng.randint(1, 2)}']
+    lines += ['[ system ]', 'x', '[ molecules ]', f'pol {3 if strained else rng.randint(1, 2)}']
     return '\n'.join(lines) + '\n', seq
 
 
@@ -325,9 +331,9 @@ def pipeline_cases(ctx, n, extra=()):
     file concern the walk only"""
     rng = ctx.rng
     todo = list(extra)
-    for _ in range(n):
-        top, seq = pipeline_top(rng)
-        vol = rng.sample(sorted(set(seq)), rng.randint(0, len(set(seq))))
+    for k in range(n):
+        top, seq = pipeline_top(rng, strained=(k == 0))
+        vol = rng.sample(sorted(set(seq)), rng.randint(0, len(set(seq)))) if k else []
         todo.append({'top': top, 'seq': seq, 'vol': vol, 'seed': rng.randrange(10 ** 6),
                      'build': ''.join(f'[ volumes ]\n{rn} {rng.choice([0.4, 0.45, 0.5])}\n' for rn in vol)})
     for item in todo:
@@ -352,6 +358,8 @@ def pipeline_cases(ctx, n, extra=()):
             res = systems.run_gen_coords(wd, top, **kw)
         ctx.case(('pipeline', top, build), nontrivial=res['ok'] and bool(seen), sample={'residues': seq, 'volumes': vol})
         ctx.feature('gen_coords_run_with_volumes' if vol else 'gen_coords_run_plain')
+        if 'RD' in seq:
+            ctx.feature('gen_coords_run_with_a_residue_whose_template_does_not_converge_in_several_molecules')
         if not res['ok']:
             ctx.note(f"gen_coords did not finish on a generated copolymer: {res['exc_type']}: {str(res.get('exception'))[:150]}")
             continue
